@@ -7,7 +7,10 @@ sha=$1; prop=$2; tier=${3:-quick}
 cd /repo || exit 2
 if [ -n "$(git status --porcelain --untracked-files=no)" ]; then echo "PREFIX: /repo is not clean"; exit 2; fi
 trap 'git -C /repo checkout -- . ; git -C /repo clean -fdq -- . >/dev/null 2>&1' EXIT
-if ! git diff "$sha^" "$sha" | git apply -R 2>/dev/shm/prefix.err; then echo "PREFIX: cannot un-apply $sha"; head -3 /dev/shm/prefix.err; exit 2; fi
+# several commits (a fix and its follow-up): "older,newer" - the newer one is un-applied first
+for one in $(echo "$sha" | tr ',' '\n' | tac); do
+  if ! git diff "$one^" "$one" | git apply -R 2>/dev/shm/prefix.err; then echo "PREFIX: cannot un-apply $one"; head -3 /dev/shm/prefix.err; exit 2; fi
+done
 cd /verif
 out=$(./run "$prop" "$tier" 2>&1); rc=$?
 echo "PREFIX: without $sha: $prop $tier exit=$rc"
